@@ -72,6 +72,9 @@ inductive Fmt where
 structure Raster where
   fmt : Fmt
   exifRotates : Bool
+  /-- `pillow_image.save(…)` in the output format of `RasterImage.__init__` succeeds (Pillow opens images it cannot
+  write as PNG, e.g. a 32-bit float TIFF: `OSError: cannot write mode F as PNG`) -/
+  encodable : Bool := true
   deriving Repr, DecidableEq, BEq, Inhabited
 
 structure Blob where
@@ -148,10 +151,24 @@ def rotates (o : Orientation) (r : Raster) : Bool :=
   | .none => false
   | .angle q flip => decide (q ≠ .q0) || flip   -- `if angle > 0` … `if flip`
 
-/-- `RasterImage.__init__`: the value stored as `image_data` and the cache write it performs. -/
-def makeRaster (opts : Opts) (c : Cache) (key : String) (blob : Blob) (r : Raster) (fileName : Option String)
-    (o : Orientation) : Img × Cache :=
-  let id := imageId key
+/-- The end of `RasterImage.__init__`: `self.image_data = self.cache_image_data(image_data, filename)` —
+`if filename:` (the empty string is falsy) a `LazyLocalImage`, else a `LazyImage` that stores the bytes in the cache. -/
+def storeRaster (opts : Opts) (c : Cache) (id : String) (outFmt : OutFmt) (payload : Payload)
+    (fileName : Option String) : Img × Cache :=
+  match fileName with
+  | some name =>
+    if name ≠ "" then (.raster id outFmt opts.dpi (.file name), c)
+    else
+      let k := dataKey id opts.dpi
+      (.raster id outFmt opts.dpi (.cached k), insert c k (.bytes payload))
+  | none =>
+    let k := dataKey id opts.dpi
+    (.raster id outFmt opts.dpi (.cached k), insert c k (.bytes payload))
+
+/-- The decisions of `RasterImage.__init__` (none depends on the cache): does `pillow_image.save` raise, the output
+format, the bytes kept, the file name kept. -/
+def rasterPlan (opts : Opts) (blob : Blob) (r : Raster) (fileName : Option String) (o : Orientation) :
+    Bool × OutFmt × Payload × Option String :=
   -- `if original_pillow_image is not pillow_image: image_data = filename = None`
   let rot := rotates o r
   let data : Option Payload := if rot then none else some (.orig blob.id)
@@ -166,16 +183,19 @@ def makeRaster (opts : Opts) (c : Cache) (key : String) (blob : Blob) (r : Raste
       .reenc blob.id (if rot then o else .none) outFmt opts.optimize (if isJpeg then opts.jpegQuality else none)
     else .orig blob.id
   let fileName : Option String := if reencode then none else fileName
-  -- `cache_image_data(image_data, filename)`: `if filename:` (the empty string is falsy)
-  match fileName with
-  | some name =>
-    if name ≠ "" then (.raster id outFmt opts.dpi (.file name), c)
-    else
-      let k := dataKey id opts.dpi
-      (.raster id outFmt opts.dpi (.cached k), insert c k (.bytes payload))
-  | none =>
-    let k := dataKey id opts.dpi
-    (.raster id outFmt opts.dpi (.cached k), insert c k (.bytes payload))
+  -- `pillow_image.save(image_file, …)` raises (only reached when re-encoding)
+  (reencode && !r.encodable, outFmt, payload, fileName)
+
+/-- `RasterImage.__init__`: the value stored as `image_data` and the cache write it performs; `none` when the
+constructor raises (`pillow_image.save` fails, before anything is written to the cache): since d7dc388
+`get_image_from_uri` turns that into an `ImageLoadingError`, i.e. `image = None`. -/
+def makeRaster (opts : Opts) (c : Cache) (key : String) (blob : Blob) (r : Raster) (fileName : Option String)
+    (o : Orientation) : Option Img × Cache :=
+  let plan := rasterPlan opts blob r fileName o
+  if plan.1 then (none, c)
+  else
+    let res := storeRaster opts c (imageId key) plan.2.1 plan.2.2.1 plan.2.2.2
+    (some res.1, res.2)
 
 def svgMime : String := "image/svg+xml"
 
@@ -188,9 +208,7 @@ def decode (opts : Opts) (c : Cache) (url key : String) (forced : String) (mime 
   if isSvgMime ∧ blob.svgOk then (some (.svg url blob.id), c)
   else
     match blob.raster with
-    | some r =>
-      let res := makeRaster opts c key blob r fileName o
-      (some res.1, res.2)
+    | some r => makeRaster opts c key blob r fileName o   -- `None`: the constructor raised (ImageLoadingError)
     | none =>
       if isSvgMime then (none, c)                       -- raise from svg_exceptions[0]
       else if blob.svgOk then (some (.svg url blob.id), c)   -- "Last chance, try SVG"
